@@ -431,17 +431,18 @@ Definition median_reflect2_model (rows : list (list Z)) (width : Z) : m2res :=
     let nr := length rows in
     let nc := length (hd [] rows) in
     let pad := Z.to_nat ((width + 1) / 2) in
+    let kern := Z.min width (Z.of_nat nr * Z.of_nat nc) in     (* median(bigarr, min(width, array.size)) *)
     if (nr <? pad)%nat || (nc <? pad)%nat then M2Err          (* (arrays with a single row/column broadcast; not modelled) *)
-    else if Z.even width then M2Err
+    else if Z.even kern then M2Err
     else
       let big := map (pad_reflect pad) (pad_reflect pad rows) in
-      M2Ok (map (fun r => firstn nc (skipn pad r)) (firstn nr (skipn pad (pydl_median2 big width)))).
+      M2Ok (map (fun r => firstn nc (skipn pad r)) (firstn nr (skipn pad (pydl_median2 big kern)))).
 
 Definition median_reflect2_total_spec (rows : list (list Z)) (width : Z) : m2res :=
   let pad := Z.to_nat ((width + 1) / 2) in
   if width =? 1 then M2Ok rows
-  else if Z.even width then M2Err
   else if (length rows <? pad)%nat || (length (hd [] rows) <? pad)%nat then M2Err
+  else if Z.even (Z.min width (Z.of_nat (length rows) * Z.of_nat (length (hd [] rows)))) then M2Err   (* the kernel is clipped to the image size *)
   else M2Ok (median_reflect2_spec rows width).
 
 Definition rows_eqb (a b : list (list Z)) : bool :=
